@@ -503,6 +503,24 @@ def rule_siblings(check):
     check.expect(mapping == want_map, R, R + "/IastTelemetry/new", hir.loc(f.rec), "verbosity mapping %s" % mapping, "verbosity mapping is %s (documented: Off->NoOp, Debug->Debug, otherwise Default)" % mapping)
 
 
+def _variant_name_map(prog, g):
+    """is g `match self { Status::V => "V", .. }` over every variant of Status (each one its own name)?"""
+    if g is None or g.body is None:
+        return False
+    try:
+        variants = {v["name"] for v in prog.adt("transform_status::Status")["variants"]}
+    except AnchorMissing:
+        return False
+    ms = [m for m in hir.walk(g.body) if m.get("k") == "Match"]
+    if len(ms) != 1:
+        return False
+    got = {}
+    for a in ms[0]["arms"]:
+        v = str(hir.pat_variant(a["pat"])).split("::")[-1]
+        got[v] = hir.lit_value(hir.peel(a["body"]))
+    return set(got) == variants and all(got[v] == v for v in variants)
+
+
 def rule_shape(check):
     R = "METRICS-SHAPE"
     check.rule(R, "get_metrics reports status = lower-cased Debug name of the status, the counter and breakdown of the telemetry of this call, and the file name it was called with")
@@ -519,6 +537,10 @@ def rule_shape(check):
             chain.append(hir.callee_name(x) or x.get("method"))
             x = hir.peel(hir.call_args(x)[0])
         ok = chain == ["to_lowercase", "to_string"] and (hir.place(x) or "").endswith(".status")
+        if not ok and len(chain) == 2 and chain[0] == "to_lowercase" and (hir.place(x) or "").endswith(".status"):
+            # a name function of the crate instead of Display: every variant maps to its own name
+            inner = hir.peel(hir.call_args(st)[0])
+            ok = _variant_name_map(prog, prog.resolve_local(inner))
         check.expect(ok, R, R + "/status", hir.loc(n), "status = %s(%s)" % (".".join(reversed(chain)), hir.place(x)), "metrics.status is computed as %s of %s" % (chain, hir.describe(x)))
         for fld, meth in (("instrumented_propagation", "get_instrumented_propagation"), ("propagation_debug", "get_propagation_debug")):
             e = hir.peel(flds[fld])
@@ -534,6 +556,10 @@ def rule_shape(check):
         raise AnchorMissing("Display for Status")
     calls = [n for n in hir.walk(disp[0].body) if hir.is_call(n)]
     ok = len(calls) == 1 and hir.callee_name(calls[0]) == "fmt" and "Debug" in (calls[0]["callee"]["path"] + calls[0]["callee"].get("trait", ""))
+    if not ok:
+        # ... or writes the variant's own name through a crate name function
+        ws = [n for n in calls if (hir.callee_name(n) or n.get("method")) in ("write_str", "pad")]
+        ok = len(ws) == 1 and any(_variant_name_map(prog, prog.resolve_local(x)) for x in hir.walk(ws[0]) if hir.is_call(x) and x is not ws[0])
     check.expect(ok, R, R + "/display", hir.loc(disp[0].rec), "Display for Status = Debug name", "Display for Status no longer delegates to Debug")
     variants = sorted(v["name"] for v in prog.adt("transform_status::Status")["variants"])
     check.expect(variants == ["Cancelled", "Modified", "NotModified"], R, R + "/variants", "-", "Status variants %s" % variants, "Status variants changed: %s" % variants)
